@@ -104,11 +104,22 @@ def parseOp (ws : List String) (steps : String) (oracle : Bool) : Option Op :=
   | ["enter", "new_ctor"] => some (.enter .mutateRoot)
   | ["enter", "try_new_ok"] => some (.enter .mutateRoot)
   | ["enter", "try_new_err"] => some (.enter .mutateRoot)
+  -- `arena::rootless_mutate`: a throw-away arena without a root (`new 0`); its callback is `mutate`
+  -- on that arena, and the harness writes `drop` when the call returns.
+  | ["enter", "rootless_mutate"] => some (.enter .mutate)
   | ["enter", "finalize"] => some (.enter .finalize)
   | ["leave"] => some .leave
   | ["leave", "panic"] => some .leave     -- a callback that unwinds: its effects so far stay
   | "alloc" :: "node" :: slots => (parseSlots slots).map (.alloc true)
   | "alloc" :: "leaf" :: slots => (parseSlots slots).map (.alloc false)
+  -- objects whose whole value is a lock (`Gc<RefLock<_>>` with 3 slots, `Gc<Lock<_>>` with one slot,
+  -- `Gc<OnceLock<_>>` with one slot, allocated empty): for the model, objects are slot lists.
+  | ["alloc", "refnode", a, b, c] => (parseSlots [a, b, c]).map (.alloc true)
+  | ["alloc", "lockcell", a] => (parseSlots [a]).map (.alloc true)
+  | ["alloc", "oncecell"] => some (.alloc true [none])
+  -- the allocation made by the closure of `Gc<OnceLock<_>>::get_or_init` (between its barrier and
+  -- its store)
+  | ["alloc", "getorinit-child", a, b, c] => (parseSlots [a, b, c]).map (.alloc true)
   | ["readroot", i] => i.toNat?.map .readRoot
   | ["read", p, i] =>
     match p.toNat?, i.toNat? with
@@ -123,6 +134,9 @@ def parseOp (ws : List String) (steps : String) (oracle : Bool) : Option Op :=
     match p.toNat?, parseOptNat c with
     | some p, some c => some (.barrier (.bb p c))
     | _, _ => none
+  -- first phase of `Gc<OnceLock<_>>::get_or_init` on an empty cell: `backward_barrier(cell, None)`,
+  -- issued before the client closure runs
+  | ["barrier", "getorinit", p] => p.toNat?.map (fun p => .barrier (.bb p none))
   | ["barrier", "bbw", p, c] =>
     match p.toNat?, c.toNat? with
     | some p, some c => some (.barrier (.bbw p c))
@@ -135,10 +149,30 @@ def parseOp (ws : List String) (steps : String) (oracle : Bool) : Option Op :=
     match parseOptNat p, c.toNat? with
     | some p, some c => some (.barrier (.fbw p c))
     | _, _ => none
+  -- `Gc<OnceLock<_>>::set` / `get_or_init` on an occupied cell: nothing is stored and no barrier is
+  -- issued; the call hands back what the cell holds — a read.
+  | ["store", "onceset-full", p, i, _] =>
+    match p.toNat?, i.toNat? with
+    | some p, some i => some (.read p i)
+    | _, _ => none
+  | ["store", "getorinit-full", p, i, _] =>
+    match p.toNat?, i.toNat? with
+    | some p, some i => some (.read p i)
+    | _, _ => none
   | ["store", path, p, i, v] =>
     let path? : Option StorePath :=
       match path with
-      | "write" => some .write | "raw" => some .raw | "stb" => some .storeThenBarrier | _ => none
+      | "write" => some .write | "raw" => some .raw | "stb" => some .storeThenBarrier
+      -- the crate's own safe setters of lock-valued objects: `backward_barrier(p, None)`, then store
+      | "lockset" => some .write        -- `Gc<Lock<T>>::set`
+      | "borrowmut" => some .write      -- `Gc<RefLock<T>>::borrow_mut`
+      | "tryborrowmut" => some .write   -- `Gc<RefLock<T>>::try_borrow_mut`
+      | "unlock" => some .write         -- `Gc::unlock`
+      | "onceset" => some .storeThenBarrier   -- `Gc<OnceLock<T>>::set` on an empty cell
+      -- last phase of `get_or_init` on an empty cell: the store, covered by the `barrier getorinit`
+      -- line written before the closure ran
+      | "getorinit" => some .raw
+      | _ => none
     match path?, p.toNat?, i.toNat?, parseSlot v with
     | some path, some p, some i, some v => some (.store path p i v)
     | _, _, _, _ => none
